@@ -165,3 +165,21 @@ Theorem C15_collapse_midpoint_keeps_wf2 `{Sig} : forall E n ks l c w cnt vid w' 
   wf2 n w'.
 Proof. exact collapse_midpoint_wf. Qed.
 Print Assumptions C15_collapse_midpoint_keeps_wf2.
+
+(** the half-cell of a collapse towards an end point whose next edge lies on the boundary (the branch repaired by the
+    fix 667f50e): the triangle pe -> e -> ne -> pe disappears entirely -- its three darts end with every image null and
+    are flagged unused, so no removed dart keeps a neighbour --, the former 2-neighbour of pe becomes a boundary dart,
+    and no other image or flag changes.  On every store. *)
+Theorem C15_collapse_to_base_boundary_removes_cell `{Sig} : forall E n ks pe e ne c w cnt w' cnt',
+  let x := beta w 2 pe in
+  NoDup [pe; e; ne; x] -> pe <> 0 -> e <> 0 -> ne <> 0 ->
+  beta w 1 pe = e -> beta w 1 e = ne -> beta w 1 ne = pe ->
+  beta w 2 ne = 0 -> beta w 2 e = 0 -> (x <> 0 -> beta w 2 x = pe) ->
+  run E (collapse_halfcell_to_base n ks pe e ne) c w cnt = (Done tt, w', cnt') ->
+  (forall i y, beta w' i y =
+     if (y =? pe) || (y =? e) || (y =? ne) then (if i <? 3 then 0 else beta w i y)
+     else if (i =? 2) && (y =? x) && negb (x =? 0) then 0
+     else beta w i y) /\
+  (forall y, unused w' y = if (y =? pe) || (y =? e) || (y =? ne) then true else unused w y).
+Proof. exact halfcell_to_base_boundary. Qed.
+Print Assumptions C15_collapse_to_base_boundary_removes_cell.
